@@ -34,7 +34,8 @@ _STATS = re.compile(r"(\d+) states generated, (\d+) distinct states found")
 
 
 def workdir(name):
-    d = os.path.join(WORK, name)
+    # one directory per (purpose, check): several checks share generator streams and may be run side by side in one tree
+    d = os.path.join(WORK, name + "." + os.environ.get("VERIF_CHECK_ID", "x"))
     if os.path.isdir(d):
         shutil.rmtree(d, ignore_errors=True)
     os.makedirs(d, exist_ok=True)
